@@ -157,7 +157,14 @@ func concFlight(args []string, out *bufio.Writer) {
 							return s + " " + errTok2(err)
 						}
 						v, err := c.Get(ctx, k, ld)
-						return fmt.Sprintf("get,%d=%d %s", k, v, errTok2(err))
+						// read-your-own-load: what Get returned (also to a caller that only joined the load) is in the cache when Get
+						// returns — nothing removes entries in these rounds
+						after := "-"
+						if err == nil {
+							v2, ok2 := c.GetIfPresent(k)
+							after = fmt.Sprintf("%d:%v", v2, ok2)
+						}
+						return fmt.Sprintf("get,%d=%d,after=%s %s", k, v, after, errTok2(err))
 					}()
 					end := stamp.Add(1)
 					results[w] = fmt.Sprintf("call %d %d %d %s", w, start, end, res)
